@@ -38,12 +38,38 @@ def _impl_one(t):
     old = signal.signal(signal.SIGALRM, _alarm)
     signal.alarm(CALL_TIMEOUT_S)
     try:
-        return ALGS[case["alg"]].call_impl(case, fmt, ot, names)
+        r = ALGS[case["alg"]].call_impl(case, fmt, ot, names)
+        if isinstance(r, dict) and r.get("error") == "MemoryError":
+            import gc
+            gc.collect()
+            return {"error": "Timeout"}      # the address-space limit of the worker (see below): a resource limit, not an answer
+        return r
     except _CallTimeout:
+        return {"error": "Timeout"}
+    except MemoryError:
+        # the worker's address-space limit (set in _worker_init): a call that needs many gigabytes is a call that does not finish
+        # within the resources of a check - reported like a timeout (never judged, never an alarm)
+        import gc
+        gc.collect()
         return {"error": "Timeout"}
     finally:
         signal.alarm(0)
         signal.signal(signal.SIGALRM, old)
+
+
+WORKER_MEM_BYTES = int(os.environ.get("VERIF_WORKER_MEM_GB", "6")) * 2 ** 30
+
+
+def _worker_init():
+    """every worker process may use at most WORKER_MEM_BYTES more address space than it has at start: without a limit one
+    exponential call can take all the memory of the machine, the kernel kills a worker, and multiprocessing then waits for ever"""
+    import resource
+    try:
+        with open("/proc/self/statm") as f:
+            now = int(f.read().split()[0]) * os.sysconf("SC_PAGE_SIZE")
+        resource.setrlimit(resource.RLIMIT_AS, (now + WORKER_MEM_BYTES, resource.RLIM_INFINITY))
+    except Exception:      # noqa
+        pass
 
 
 def timed(thunk, limit=None):
@@ -60,17 +86,81 @@ def timed(thunk, limit=None):
         signal.signal(signal.SIGALRM, old)
 
 
+def _impl_chunk(ts):
+    return [_impl_one(t) for t in ts]
+
+
+def _isolated(t):
+    """one implementation call in a process of its own (used after a worker process died): a call that kills its process -
+    the MIP solver aborting on an allocation failure, the kernel's OOM killer - is reported like a timeout (never judged)"""
+    import multiprocessing as mp
+    ctx = mp.get_context("fork")
+    rd, wr = ctx.Pipe(duplex=False)
+
+    def child():
+        _worker_init()
+        try:
+            wr.send(_impl_one(t))
+        finally:
+            wr.close()
+    p = ctx.Process(target=child)
+    p.start()
+    wr.close()
+    res = {"error": "Timeout"}
+    try:
+        if rd.poll(CALL_TIMEOUT_S + 60):
+            res = rd.recv()
+    except Exception:      # noqa   (EOF: the child died before answering)
+        pass
+    p.join(5)
+    if p.is_alive():
+        p.kill(); p.join()
+    return res
+
+
+WORKER_CRASHES = [0]
+
+
 def impl_map(tasks, serial_below=200):
     """run the real prtpy on every task (case, fmt, outtype, names); worker processes are forked from this
-    interpreter, so they run the same /repo working tree"""
+    interpreter, so they run the same /repo working tree.  A worker that dies (killed by the kernel, aborted by the MIP
+    solver's C++ runtime) breaks the pool; the calls without an answer are then re-run one per process, and the one that
+    kills its process is reported as error:Timeout."""
     global _POOL
     tasks = list(tasks)
     if len(tasks) < serial_below or os.environ.get("VERIF_SERIAL"):
         return [_impl_one(t) for t in tasks]
+    import multiprocessing as mp
+    from concurrent.futures import ProcessPoolExecutor, as_completed
+    from concurrent.futures.process import BrokenProcessPool
     if _POOL is None:
-        import multiprocessing as mp
-        _POOL = mp.get_context("fork").Pool(min(16, os.cpu_count() or 1))
-    return _POOL.map(_impl_one, tasks, chunksize=max(1, min(64, len(tasks) // 64)))
+        _POOL = ProcessPoolExecutor(max_workers=min(16, os.cpu_count() or 1), mp_context=mp.get_context("fork"), initializer=_worker_init)
+    cs = max(1, min(16, len(tasks) // 64))
+    results = [None] * len(tasks)
+    done = [False] * len(tasks)
+    try:
+        futs = {_POOL.submit(_impl_chunk, tasks[i:i + cs]): i for i in range(0, len(tasks), cs)}
+        for f in as_completed(futs):
+            i = futs[f]
+            for j, r in enumerate(f.result()):
+                results[i + j] = r; done[i + j] = True
+    except BrokenProcessPool:
+        WORKER_CRASHES[0] += 1
+        try:
+            _POOL.shutdown(wait=False, cancel_futures=True)
+        except Exception:      # noqa
+            pass
+        _POOL = None
+        for f, i in futs.items():       # keep what did finish
+            if f.done() and not f.cancelled() and f.exception() is None:
+                for j, r in enumerate(f.result()):
+                    results[i + j] = r; done[i + j] = True
+        rest = [i for i in range(len(tasks)) if not done[i]]
+        from concurrent.futures import ThreadPoolExecutor
+        with ThreadPoolExecutor(8) as tp:
+            for i, r in zip(rest, tp.map(lambda i_: _isolated(tasks[i_]), rest)):
+                results[i] = r
+    return results
 
 
 class Check:
@@ -147,7 +237,8 @@ class Check:
             if k.get("status") != "known" or self.pid not in k["properties"]:
                 continue
             kinds = k["kind"] if isinstance(k["kind"], list) else [k["kind"]]
-            if k["algorithm"] != alg or not any(kind.startswith(kk_) for kk_ in kinds):
+            algs_ = k["algorithm"] if isinstance(k["algorithm"], list) else [k["algorithm"]]
+            if alg not in algs_ or not any(kind.startswith(kk_) for kk_ in kinds):
                 continue
             pr = k.get("predicate", {})
             p = case["p"]
@@ -158,6 +249,8 @@ class Check:
             if "formats" in pr and fmt not in pr["formats"]:
                 continue
             if any(p.get(key) != want for key, want in pr.get("params", {}).items()):
+                continue
+            if "obj_prefixes" in pr and not any(str(p.get("obj", "")).startswith(x) for x in pr["obj_prefixes"]):
                 continue
             if pr.get("model_answers") is not None:
                 # the finding only covers inputs on which the model of the current code gives this answer
@@ -188,7 +281,7 @@ class Check:
 
     def fail(self, alg, case, fmt, outtype, kind, observed, expected, extra=None):
         """the implementation fails the property on this case (already judged)"""
-        if alg == "bin_completion" and fmt in ("dict_str", "dict_int", "names_valueof") and \
+        if alg == "bin_completion" and fmt in ("dict_str", "dict_int", "names_valueof", "array_valueof") and \
                 kind not in ("input-modified", "history-dependent", "not-repeatable", "oversize-accepted") and self._kf4_shape(case, observed):
             kind = "names-not-values:" + kind       # KF4 explains TypeErrors and badly packed (but conserved) names, nothing else
         k = self.match_known(alg, case, fmt, kind)
